@@ -32,9 +32,6 @@ from vf.props import c15
 
 CASE = None
 REPO = os.environ.get('VERIF_REPO', '/repo')
-TRANSFORMED = ('is_registered', 'pretty_python_value', 'register_pretty')
-# helpers these functions delegate to (transformed as well when present)
-TRANSFORMED_OPTIONAL = ('_is_registered',)
 
 
 def _install(case):
@@ -73,31 +70,109 @@ def _co_release(lock, me):
         lock.owner = None
 
 
-class Yielder(ast.NodeTransformer):
-    """Insert ``yield <lineno>`` before every statement of the selected
-    functions; calls of selected functions that form a whole statement (or the
-    value of an assignment / return) become ``yield from``; ``with X:`` on a
-    module-level lock becomes a cooperative acquire / release."""
+MUTABLE_CTORS = ('dict', 'list', 'set', 'WeakKeyDictionary', 'WeakSet', 'WeakValueDictionary',
+                 'OrderedDict', 'defaultdict', 'Lock', 'RLock', 'singledispatch', 'deque')
+ROOTS = ('python_to_sdocs', 'pretty_python_value', 'is_registered', '_run_pretty', 'register_pretty')
+
+
+def _callname(f):
+    if isinstance(f, ast.Attribute):
+        return f.attr
+    return getattr(f, 'id', '')
+
+
+def select_functions(tree):
+    """Which module-level functions become coroutines: the roots plus every
+    function reachable from them through calls by name that (transitively)
+    touches module-level mutable state or a lock.  Everything else a thread
+    executes stays one atomic step."""
+    defs = {n.name: n for n in tree.body if isinstance(n, ast.FunctionDef)}
+    mutable = set()
+    locks = []
+    for node in tree.body:
+        if isinstance(node, ast.Assign):
+            v = node.value
+            is_mut = isinstance(v, (ast.Dict, ast.List, ast.Set)) or (
+                isinstance(v, ast.Call) and _callname(v.func) in MUTABLE_CTORS)
+            if is_mut:
+                for t in node.targets:
+                    if isinstance(t, ast.Name):
+                        mutable.add(t.id)
+                        if isinstance(v, ast.Call) and _callname(v.func) in ('Lock', 'RLock'):
+                            locks.append(t.id)
+    used = {}
+    for name, fn in defs.items():
+        used[name] = {n.id for n in ast.walk(fn) if isinstance(n, ast.Name)}
+    calls = {name: (used[name] & set(defs)) - {name} for name in defs}
+    touches = {name for name in defs if used[name] & mutable}
+    changed = True
+    while changed:
+        changed = False
+        for name in defs:
+            if name not in touches and calls[name] & touches:
+                touches.add(name)
+                changed = True
+    reach = set()
+    todo = [r for r in ROOTS if r in defs]
+    while todo:
+        n = todo.pop()
+        if n in reach:
+            continue
+        reach.add(n)
+        todo.extend(calls[n])
+    selected = (touches & reach) | (set(ROOTS) & set(defs))
+    # generators and decorated (e.g. memoised / registered) functions stay atomic
+    for name in list(selected):
+        fn = defs[name]
+        if name in ROOTS:
+            continue
+        if fn.decorator_list or any(isinstance(n, (ast.Yield, ast.YieldFrom)) for n in ast.walk(fn)):
+            selected.discard(name)
+    return defs, selected, locks, sorted(mutable)
+
+
+class ExprRewriter(ast.NodeTransformer):
+    """Calls of coroutine functions inside an expression become ``yield from``."""
+
+    def __init__(self, names):
+        self.names = names
+
+    def visit_Lambda(self, node):
+        return node
+
+    visit_ListComp = visit_SetComp = visit_DictComp = visit_GeneratorExp = visit_Lambda
+    visit_FunctionDef = visit_Lambda
+
+    def visit_Call(self, node):
+        self.generic_visit(node)
+        f = node.func
+        if isinstance(f, ast.Name) and f.id == 'pretty_dispatch':
+            node.func = ast.Name(id='__co_dispatch', ctx=ast.Load())
+            return ast.YieldFrom(value=node)
+        # the coroutine versions live under '__co__<name>'; a plain reference to
+        # the name (e.g. partial(_run_pretty, fn)) keeps meaning the real function
+        if isinstance(f, ast.Name) and f.id in self.names and f.id != 'register_pretty':
+            node.func = ast.Name(id='__co__' + f.id, ctx=ast.Load())
+            return ast.YieldFrom(value=node)
+        if isinstance(f, ast.Call) and isinstance(f.func, ast.Name) and f.func.id == 'register_pretty' \
+                and 'register_pretty' in self.names:
+            f.func = ast.Name(id='__co__register_pretty', ctx=ast.Load())
+            return ast.YieldFrom(value=node)
+        return node
+
+
+class Yielder:
+    """``yield <lineno>`` before every statement of the selected functions;
+    ``with <lock>:`` becomes a cooperative acquire / release."""
 
     def __init__(self, names, lock_names):
         self.names = set(names)
         self.lock_names = set(lock_names)
-        self.depth = 0
+        self.rewriter = ExprRewriter(self.names)
         self.points = 0
 
-    def is_co_call(self, node):
-        """f(...) or f(...)(...) with f a transformed function"""
-        if not isinstance(node, ast.Call):
-            return False
-        f = node.func
-        if isinstance(f, ast.Name) and f.id in self.names and f.id != 'register_pretty':
-            return True
-        if isinstance(f, ast.Call) and isinstance(f.func, ast.Name) and f.func.id == 'register_pretty':
-            return True
-        return False
-
-    def co(self, call):
-        return ast.YieldFrom(value=call)
+    def expr(self, node):
+        return self.rewriter.visit(node) if node is not None else None
 
     def block(self, stmts):
         out = []
@@ -108,19 +183,18 @@ class Yielder(ast.NodeTransformer):
         return out
 
     def stmt(self, st):
-        if isinstance(st, ast.Expr) and self.is_co_call(st.value):
-            return [ast.Expr(value=self.co(st.value))]
-        if isinstance(st, ast.Assign) and self.is_co_call(st.value):
-            st.value = self.co(st.value)
-            return [st]
-        if isinstance(st, ast.Return) and st.value is not None and self.is_co_call(st.value):
-            st.value = self.co(st.value)
-            return [st]
         if isinstance(st, ast.If):
+            st.test = self.expr(st.test)
             st.body = self.block(st.body)
             st.orelse = self.block(st.orelse) if st.orelse else []
             return [st]
-        if isinstance(st, (ast.For, ast.While)):
+        if isinstance(st, ast.While):
+            st.test = self.expr(st.test)
+            st.body = self.block(st.body)
+            st.orelse = self.block(st.orelse) if st.orelse else []
+            return [st]
+        if isinstance(st, ast.For):
+            st.iter = self.expr(st.iter)
             st.body = self.block(st.body)
             st.orelse = self.block(st.orelse) if st.orelse else []
             return [st]
@@ -147,24 +221,22 @@ class Yielder(ast.NodeTransformer):
             st.body = self.block(st.body)
             return [st]
         if isinstance(st, ast.FunctionDef):
-            # nested function (the decorator inside register_pretty): also a coroutine
-            if self.depth >= 1 and st.name == 'decorator':
-                st.body = self.block(st.body)
             return [st]
-        return [st]
+        return [self.expr(st)]
 
     def transform_function(self, fn):
         fn = copy.deepcopy(fn)
         fn.decorator_list = []
-        if fn.name == 'register_pretty':
-            # the outer function stays an ordinary function returning the
-            # (coroutine) decorator
-            self.depth = 1
+        orig_name = fn.name
+        fn.name = '__co__' + orig_name
+        if orig_name == 'register_pretty':
+            # stays an ordinary function returning the (coroutine) decorator
             new_body = []
             for st in fn.body:
-                new_body.extend(self.stmt(st) if isinstance(st, ast.FunctionDef) else [st])
+                if isinstance(st, ast.FunctionDef) and st.name == 'decorator':
+                    st.body = self.block(st.body)
+                new_body.append(st)
             fn.body = new_body
-            self.depth = 0
         else:
             fn.body = self.block(fn.body)
         return fn
@@ -172,32 +244,35 @@ class Yielder(ast.NodeTransformer):
 
 def build_coroutines():
     """Compile the coroutine versions from the current source; returns
-    (namespace, yield point count, lock names)."""
+    (code, yield point count, lock names, selected function names)."""
     path = os.path.join(REPO, 'prettyprinter', 'prettyprinter.py')
     tree = ast.parse(open(path).read())
-    # module-level locks: NAME = threading.Lock() / RLock() / Lock()
-    lock_names = []
-    for node in tree.body:
-        if isinstance(node, ast.Assign) and isinstance(node.value, ast.Call):
-            f = node.value.func
-            fname = f.attr if isinstance(f, ast.Attribute) else getattr(f, 'id', '')
-            if fname in ('Lock', 'RLock'):
-                for t in node.targets:
-                    if isinstance(t, ast.Name):
-                        lock_names.append(t.id)
-    present = [n.name for n in tree.body if isinstance(n, ast.FunctionDef)]
-    names = list(TRANSFORMED) + [n for n in TRANSFORMED_OPTIONAL if n in present]
-    y = Yielder(names, lock_names)
-    fns = []
-    for node in tree.body:
-        if isinstance(node, ast.FunctionDef) and node.name in names:
-            fns.append(y.transform_function(node))
-    if len(fns) != len(names):
-        raise RuntimeError('could not find %r in the source' % (names,))
+    defs, selected, lock_names, mutable = select_functions(tree)
+    missing = [r for r in ROOTS if r not in defs]
+    if missing:
+        raise RuntimeError('could not find %r in the source' % (missing,))
+    y = Yielder(selected, lock_names)
+    fns = [y.transform_function(defs[name]) for name in sorted(selected)]
     mod = ast.Module(body=fns, type_ignores=[])
     ast.fix_missing_locations(mod)
     code = compile(mod, path + ':<coroutines>', 'exec')
-    return code, y.points, lock_names
+    return code, y.points, lock_names, sorted(selected)
+
+
+def _co_dispatch(ns):
+    """pretty_dispatch(value, ctx, ...) inside a coroutine: resolve the
+    implementation through the real singledispatch (one atomic step) and run the
+    _run_pretty wrapper as a coroutine, so that the visit bookkeeping of the
+    top-level value interleaves; the printer itself is one atomic step."""
+    import functools
+
+    def dispatch(value, ctx, **kw):
+        impl = PP.pretty_dispatch.dispatch(value.__class__)
+        if isinstance(impl, functools.partial) and impl.func is PP._run_pretty and not impl.keywords:
+            return (yield from ns['__co___run_pretty'](*impl.args, value, ctx, **kw))
+        return impl(value, ctx, **kw)
+        yield  # pragma: no cover (makes this a generator function)
+    return dispatch
 
 
 class Namespace(dict):
@@ -270,6 +345,7 @@ THREAD_VALUES = {
     'two-levels': ['LazyGrand(1)', 'LazyChild(2)', 'LazyBase(3)'],
     'direct-then-name': ['LazyBase(1)', 'LazyChild(2)', 'Direct()'],
     'mixed': ['LazyBase(1)', 'Plain()', 'Direct()'],
+    'containers': ['[LazyBase(1), 2]', "{'k': LazyChild(2)}", '(LazyBase(3),)'],
 }
 
 
@@ -295,7 +371,7 @@ class ScheduleCase(base.CaseBase):
         self.setup = params['setup']
         self.nthreads = params.get('threads', 2)
         self.values = THREAD_VALUES[params.get('values', self.setup)][:self.nthreads]
-        self.code, self.points, self.lock_names = build_coroutines()
+        self.code, self.points, self.lock_names, self.selected = build_coroutines()
         self.maxstep = params.get('maxstep', 40)
         # sequential reference (fresh state, each order)
         self.expected = None
@@ -305,13 +381,20 @@ class ScheduleCase(base.CaseBase):
             for order in itertools.permutations(range(self.nthreads)):
                 apply_setup(self.setup)
                 texts = {}
+                vals = self.make_values()
                 for i in order:
-                    texts[i] = PKG.pformat(make_value(self.values[i]))
+                    texts[i] = PKG.pformat(vals[i])
                 if self.expected is None:
                     self.expected = texts
                 elif texts != self.expected:
                     raise RuntimeError('sequential orders disagree: %r vs %r' % (texts, self.expected))
             c15.reset()
+
+    def make_values(self):
+        vals = [make_value(v) for v in self.values]
+        if self.params.get('same_object'):
+            vals = [vals[0]] * len(vals)
+        return vals
 
     def pre(self, cuts):
         first = self.params.get('first')
@@ -322,6 +405,14 @@ class ScheduleCase(base.CaseBase):
             elif k < self.ncuts():
                 if not (0 <= c and c <= self.maxstep):
                     return False
+                allowed = self.params.get('c3_values') if k == 2 else None
+                if allowed is not None:
+                    ok = False
+                    for v in allowed:
+                        if c == v:
+                            ok = True
+                    if not ok:
+                        return False
             elif c != 0:
                 return False
         return True
@@ -333,11 +424,11 @@ class ScheduleCase(base.CaseBase):
         # concretise the switch points
         conc = []
         for k in range(self.ncuts()):
+            # binary concretisation (6 comparisons instead of up to 53)
             v = 0
-            for q in range(self.maxstep + 1):
-                if cuts[k] == q:
-                    v = q
-                    break
+            for bit in (32, 16, 8, 4, 2, 1):
+                if cuts[k] >= v + bit:
+                    v += bit
             conc.append(v)
         if self.native:
             return self.execute(conc)
@@ -356,6 +447,7 @@ class ScheduleCase(base.CaseBase):
     def execute_inner(self, cuts):
         n = self.nthreads
         locks = {name: CoLock(name) for name in self.lock_names}
+        values = self.make_values()
         threads = []
         for i in range(n):
             me = [None]
@@ -365,10 +457,12 @@ class ScheduleCase(base.CaseBase):
             overlay['__co_me'] = me
             ns = Namespace(PP.__dict__, overlay)
             exec(self.code, ns)
+            overlay_dispatch = _co_dispatch(ns)
+            ns['__co_dispatch'] = overlay_dispatch
             me[0] = ns           # identity of the thread
-            value = make_value(self.values[i])
-            ctx = PP.PrettyContext(indent=4, depth_left=float('inf'), visited=set())
-            gen = ns['pretty_python_value'](value, ctx)
+            value = values[i]
+            gen = ns['__co__python_to_sdocs'](value, indent=4, width=79, depth=None, ribbon_width=71,
+                                        max_seq_len=1000, sort_dict_keys=False)
             threads.append({'gen': gen, 'done': False, 'doc': None, 'exc': None, 'steps': 0,
                             'blocked': False, 'trace': []})
 
@@ -424,11 +518,10 @@ class ScheduleCase(base.CaseBase):
                 exc = type(t['exc']).__name__
                 return self.fail('C20:thread-raises-' + exc, describe)
         for i, t in enumerate(threads):
-            # the rest of pformat is one atomic step per thread
-            from prettyprinter.layout import layout_smart
+            # the rest of pformat (layout, rendering) is one atomic step per thread
             from prettyprinter.render import default_render_to_str
             try:
-                texts[i] = default_render_to_str(layout_smart(t['doc'], width=79, ribbon_frac=71 / 79))
+                texts[i] = default_render_to_str(t['doc'])
             except Exception as e:
                 return self.fail('C20:thread-raises-' + type(e).__name__, describe)
         for i in range(n):
@@ -436,7 +529,7 @@ class ScheduleCase(base.CaseBase):
                 return self.fail('C20:text-differs-from-sequential-run', describe)
         # the shared state ends up as after a sequential run: a later print agrees
         for i in range(n):
-            again = PKG.pformat(make_value(self.values[i]))
+            again = PKG.pformat(values[i])
             if again != self.expected[i]:
                 return self.fail('C20:later-print-differs-from-sequential-run', describe)
         return True
@@ -467,12 +560,12 @@ class ScheduleCase(base.CaseBase):
         import sys
         import threading
         fname = os.path.join(REPO, 'prettyprinter', 'prettyprinter.py')
-        targets = set(TRANSFORMED) | set(TRANSFORMED_OPTIONAL) | {'decorator'}
+        targets = set(self.selected) | {'decorator'}
         n = self.nthreads
         with warnings.catch_warnings():
             warnings.simplefilter('ignore')
             apply_setup(self.setup)
-        values = [make_value(v) for v in self.values]
+        values = self.make_values()
         go = [threading.Semaphore(0) for _ in range(n)]      # controller -> thread: run one statement
         arrived = [threading.Semaphore(0) for _ in range(n)]  # thread -> controller: paused before a statement / finished
         results = [None] * n
@@ -481,7 +574,15 @@ class ScheduleCase(base.CaseBase):
         expected_lines = [list(tr) for tr in getattr(self, 'last_traces', [[]] * n)]
         pointer = [0] * n
 
+        active_run_pretty = [0] * n
+
         def make_tracer(i):
+            def local_rp(frame, event, arg):
+                if event == 'return':
+                    active_run_pretty[i] -= 1
+                    return local_rp
+                return local(frame, event, arg) and local_rp
+
             def local(frame, event, arg):
                 # pause exactly before the statements the model paused before:
                 # the k-th pause of thread i is the line event whose line is
@@ -497,6 +598,13 @@ class ScheduleCase(base.CaseBase):
             def tracer(frame, event, arg):
                 co = frame.f_code
                 if event == 'call' and co.co_filename == fname and co.co_name in targets:
+                    # everything below the outermost _run_pretty (the printer and
+                    # the values nested in it) is one atomic step in the model
+                    if active_run_pretty[i] > 0:
+                        return None
+                    if co.co_name == '_run_pretty':
+                        active_run_pretty[i] += 1
+                        return local_rp
                     return local
                 return None
             return tracer
@@ -612,55 +720,47 @@ def replay_case(task):
 def cases(tier, seed):
     out = []
     first = True
-    # a thread executes at most ~30 statements of the transformed functions
+    # a thread executes at most ~52 statements of the coroutine functions
     # (a cut beyond the end of a thread equals a cut at its end)
-    M = 30
-    setups = [('exact', None), ('base', None), ('two-levels', None), ('direct-then-name', None), ('exact', 'mixed')]
+    M = 52
+    C3_QUICK = [0, 1, 2, 3, 5, 8, 13, 21, 34, 52]
+    C3_THOROUGH = sorted(set(list(range(0, 16)) + [18, 21, 25, 30, 34, 40, 46, 52]))
+    setups = [('exact', None), ('base', None), ('two-levels', None), ('direct-then-name', None), ('exact', 'mixed'),
+              ('exact', 'same-object'), ('exact', 'containers')]
     for setup, values in setups:
         label = setup if values is None else setup + '+' + values
-        if tier == 'quick':
-            # two threads, three symbolic cuts (up to three context switches before both run
-            # to completion), partitioned by coarse ranges of the first cut
-            if setup == 'two-levels':
-                continue
-            for c1 in range(0, M + 1, 3):
-                p = {'setup': setup, 'threads': 2, 'ncuts': 3, 'maxstep': M, 'first': c1}
-                if values:
-                    p['values'] = values
-                out.append({'name': 'two-threads:%s:c1=%d' % (label, c1), 'family': 'schedule', 'params': p,
-                            'budget': 120.0, 'path_timeout': 60.0, 'twin': first})
-                first = False
-        else:
-            for c1 in range(0, M + 1):
-                p = {'setup': setup, 'threads': 2, 'ncuts': 3, 'maxstep': M, 'first': c1}
-                if values:
-                    p['values'] = values
-                out.append({'name': 'two-threads:%s:c1=%d' % (label, c1), 'family': 'schedule', 'params': p,
-                            'budget': 300.0, 'path_timeout': 60.0})
-    if tier == 'thorough':
-        # four cuts on the two central scenarios
-        for setup in ('exact', 'base'):
-            for c1 in range(0, 21):
-                out.append({'name': 'two-threads-4cuts:%s:c1=%d' % (setup, c1), 'family': 'schedule',
-                            'params': {'setup': setup, 'threads': 2, 'ncuts': 4, 'maxstep': 20, 'first': c1},
-                            'budget': 900.0, 'path_timeout': 60.0})
-    for setup in (('base',) if tier == 'quick' else ('exact', 'base', 'two-levels', 'direct-then-name')):
-        for c1 in range(0, M + 1, 5 if tier == 'quick' else 1):
+        if tier == 'quick' and setup == 'two-levels':
+            continue
+        step = 4 if tier == 'quick' else 1
+        for c1 in range(0, M + 1, step):
+            p = {'setup': setup, 'threads': 2, 'ncuts': 3, 'maxstep': M, 'first': c1,
+                 'c3_values': C3_QUICK if tier == 'quick' else C3_THOROUGH}
+            if values == 'same-object':
+                p['same_object'] = True
+            elif values:
+                p['values'] = values
+            out.append({'name': 'two-threads:%s:c1=%d' % (label, c1), 'family': 'schedule', 'params': p,
+                        'budget': 120.0 if tier == 'quick' else 400.0, 'path_timeout': 60.0, 'twin': first})
+            first = False
+    for setup in (('base',) if tier == 'quick' else ('exact', 'base', 'direct-then-name')):
+        for c1 in range(0, M + 1, 8 if tier == 'quick' else 2):
             out.append({'name': 'three-threads:%s:c1=%d' % (setup, c1), 'family': 'schedule',
-                        'params': {'setup': setup, 'threads': 3, 'ncuts': 3, 'maxstep': M, 'first': c1},
-                        'budget': 120.0 if tier == 'quick' else 300.0, 'path_timeout': 60.0})
+                        'params': {'setup': setup, 'threads': 3, 'ncuts': 3, 'maxstep': M, 'first': c1,
+                                   'c3_values': C3_QUICK},
+                        'budget': 120.0 if tier == 'quick' else 400.0, 'path_timeout': 60.0})
     return out
 
 
 def evidence(tier, seed, tasks, results):
-    code, points, locks = build_coroutines()
+    code, points, locks, selected = build_coroutines()
     return {
         'coverage': {
             'bounds': {
-                'functions turned into coroutines (from the current source)': list(TRANSFORMED) + ['register_pretty.<locals>.decorator'],
+                'functions turned into coroutines (from the current source)': selected + ['register_pretty.<locals>.decorator'],
                 'yield points inserted': points,
                 'locks modelled': locks,
-                'schedules': 'two threads: A runs c1 statements, B c2, A c3 (quick; thorough also B c4 on two scenarios), then both run to completion; every cut in 0..30 symbolic (the first one fixed per task = partition; quick: every third value only); three threads: A c1, B c2, C c3 then completion',
+                'schedules': 'two threads: A runs c1 statements, B c2, A c3, then both run to completion; c1 fixed per task (partition; quick: every 4th value of 0..52), c2 symbolic 0..52, c3 symbolic over a set of 10 (quick) / 24 (thorough) values; three threads: A c1, B c2, C c3, then completion',
+                'scenarios_2': 'also: both threads print the very same object; containers holding lazily registered values',
                 'scenarios': 'first print of a lazily (by name) registered type by both threads; lazily registered base class with subclass instances; two lazy levels; direct registration shadowed by a newer by-name one; lazily / directly / not registered types mixed',
             },
             'note': 'switch points are solver variables concretised by chains: each path is one schedule, executed on the real shared module state; a violation is a real schedule, absence of violations is claimed for statement-granularity interleavings of these functions only',
